@@ -119,6 +119,20 @@ MUTANTS = [
      "euclidean_distance: the caller's flag negated (round 5's seed)"),
     ("C05", "dendropy/datamodel/treecollectionmodel.py", "                is_bipartitions_updated=is_bipartitions_updated,\n                default_edge_length_value=self.default_edge_length_value)",
      "                is_bipartitions_updated=True,\n                default_edge_length_value=self.default_edge_length_value)", "add_tree: count_splits_on_tree told the encoding is current whatever the caller said"),
+    ("C05", "dendropy/datamodel/treecollectionmodel.py", "                use_tree_weights=kwargs_dict.pop(\"use_tree_weights\", True),\n", "",
+     "TreeList._get_tree_array: use_tree_weights no longer handed to the array (round 6's seed)"),
+    ("C05", "dendropy/datamodel/treecollectionmodel.py", "            use_tree_weights=use_tree_weights,\n            ultrametricity_precision=ultrametricity_precision,\n            is_force_max_age=is_force_max_age,\n            taxon_label_age_map=taxon_label_age_map,\n            )\n        ta.add_trees(",
+     "            ultrametricity_precision=ultrametricity_precision,\n            is_force_max_age=is_force_max_age,\n            taxon_label_age_map=taxon_label_age_map,\n            )\n        ta.add_trees(",
+     "TreeArray.from_tree_list: use_tree_weights not handed to the constructor (round 6's seed)"),
+    ("C06", "dendropy/datamodel/treecollectionmodel.py", "                is_force_max_age=self._split_distribution.is_force_max_age,\n                taxon_label_age_map=self.taxon_label_age_map,\n                )\n        ta.default_edge_length_value",
+     "                )\n        ta.default_edge_length_value", "__add__: the sum is built without the operands' age settings (the repaired defect)"),
+    ("C10", "dendropy/datamodel/taxonmodel.py", "        taxon = self._lookup_label(label=label,\n                is_case_sensitive=is_case_sensitive,\n                first_match_only=True,\n                error_if_not_found=False,\n                )\n        if taxon is not None:\n            return taxon\n        if not self.is_mutable:",
+     "        taxon = self._lookup_label(label=label,\n                first_match_only=True,\n                error_if_not_found=False,\n                )\n        if taxon is not None:\n            return taxon\n        if not self.is_mutable:",
+     "require_taxon: the call's case flag dropped (round 4's seed)"),
+    ("C14", "dendropy/calculate/phylogeneticdistance.py", "            return self.path_edge_count(taxon1, taxon2, is_normalize_by_tree_size=is_normalize_by_tree_size)",
+     "            return self.path_edge_count(taxon1, taxon2)", "distance(): the edge-count branch drops is_normalize_by_tree_size"),
+    ("C14", "dendropy/calculate/phylogeneticdistance.py", "        return sum(self.distances(is_weighted_edge_distances=is_weighted_edge_distances,is_normalize_by_tree_size=is_normalize_by_tree_size))",
+     "        return sum(self.distances(is_weighted_edge_distances=True,is_normalize_by_tree_size=is_normalize_by_tree_size))", "sum_of_distances: always weighted"),
     ("C14", "dendropy/calculate/treemeasure.py", "is_bipartitions_updated=is_bipartitions_updated", "is_bipartitions_updated=True", "patristic_distance: mrca told the encoding is current"),
     ("C11", "dendropy/datamodel/charmatrixmodel.py", "                taxon = char_matrix.taxon_namespace.require_taxon(key,\n                        is_case_sensitive=case_sensitive_taxon_labels)",
      "                taxon = char_matrix.taxon_namespace.require_taxon(label=key)", "from_dict: the case flag is not handed to require_taxon"),
